@@ -289,11 +289,11 @@ Fixpoint contains_in (l : str) : bool :=
 Definition brackets_to_parens (l : str) : str :=
   map (fun c => if Ascii.eqb c "[" then "("%char else if Ascii.eqb c "]" then ")"%char else c) l.
 
-Definition s_r : str := Eval compute in s_r.
-Definition s_p : str := Eval compute in s_p.
-Definition s_g : str := Eval compute in s_g.
-Definition s_e : str := Eval compute in s_e.
-Definition s_m : str := Eval compute in s_m.
+Definition s_r : str := Eval compute in lit "r".
+Definition s_p : str := Eval compute in lit "p".
+Definition s_g : str := Eval compute in lit "g".
+Definition s_e : str := Eval compute in lit "e".
+Definition s_m : str := Eval compute in lit "m".
 
 Record assertion := mkA { a_sec : str; a_key : str; a_value : str; a_tokens : list str; a_params : list str }.
 
@@ -313,12 +313,17 @@ Definition add_def (sec key value : str) : option assertion :=
     Some (mkA sec key v [] []).
 
 (* sectionNameMap *)
+Definition n_request : str := Eval compute in lit "request_definition".
+Definition n_policy : str := Eval compute in lit "policy_definition".
+Definition n_role : str := Eval compute in lit "role_definition".
+Definition n_effect : str := Eval compute in lit "policy_effect".
+Definition n_matchers : str := Eval compute in lit "matchers".
 Definition sec_name (sec : str) : str :=
-  if str_eqb sec s_r then Eval compute in lit "request_definition"
-  else if str_eqb sec s_p then Eval compute in lit "policy_definition"
-  else if str_eqb sec s_g then Eval compute in lit "role_definition"
-  else if str_eqb sec s_e then Eval compute in lit "policy_effect"
-  else if str_eqb sec s_m then Eval compute in lit "matchers"
+  if str_eqb sec s_r then n_request
+  else if str_eqb sec s_p then n_policy
+  else if str_eqb sec s_g then n_role
+  else if str_eqb sec s_e then n_effect
+  else if str_eqb sec s_m then n_matchers
   else [].
 
 (* strconv.Itoa for a natural number *)
